@@ -868,7 +868,7 @@ func (e *execStub) Exec(code []byte, arg string, env interface{}) (executor.Exec
 
 // ---- the executor endpoint of mode "rest" ------------------------------------------------------------------
 
-const restTimeout = 1000 * time.Millisecond // client timeout of the real executor; only a "hang" may reach it
+const restTimeout = 2000 * time.Millisecond // client timeout of the real executor; only a "hang" may reach it
 
 type restEndpoint struct {
 	ex   *execStub // outcomes by (request id, external id), under ex.mu
@@ -1620,7 +1620,13 @@ func runC19(c c19Case) *pbt.Verdict {
 		srv.Start()
 		defer srv.Close()
 		defer close(w.rest.stop)
+		// NewExecutor runs a self test against the endpoint with the same client timeout; on an overloaded machine that
+		// one exchange may time out, which says nothing about the daemon: try again
 		real, rerr := executor.NewExecutor(fmt.Sprintf("rest:%s/?timeout=%s", srv.URL, restTimeout))
+		for try := 0; rerr != nil && try < 5; try++ {
+			v.Count("rest_self_test_retries", 1)
+			real, rerr = executor.NewExecutor(fmt.Sprintf("rest:%s/?timeout=%s", srv.URL, restTimeout))
+		}
 		if rerr != nil {
 			v.Failf("harness", "executor.NewExecutor(rest): %v", rerr)
 			return v
@@ -1925,6 +1931,7 @@ func (w *c19World) round(ri int, rd c19Round) (*pbt.Verdict, bool) {
 	if !quiet {
 		iv := &pbt.Verdict{}
 		iv.Class("inconclusive")
+		iv.Class("inconclusive:no-quiescence-within-guard")
 		return iv, false
 	}
 	if atomic.LoadInt32(&startupFailed) != 0 {
@@ -2184,6 +2191,7 @@ func (w *c19World) round(ri int, rd c19Round) (*pbt.Verdict, bool) {
 	if w.spuriousTimeouts > 0 {
 		iv := &pbt.Verdict{}
 		iv.Class("inconclusive")
+		iv.Class("inconclusive:rest-exchange-slower-than-client-timeout")
 		iv.Count("rest_exchange_slower_than_client_timeout", int64(w.spuriousTimeouts))
 		return iv, false
 	}
